@@ -84,6 +84,20 @@ var c17ChildRe = regexp.MustCompile(`C17CHILD alloc=(\d+) err=(.*)`)
 
 const c17QuietSlack = 6 << 20
 
+// c17QuietGrowth: growth of the heap peak outside of the parsing phase from the small to the large list, each peak taken above
+// the heap the process had when the measured run started (what the harness itself still holds - buffers of the generator, the
+// previous validator's LevelDB caches - is in that baseline: 8 vs 20 MB for the PEM file pair of the thorough tier, which the
+// first version attributed to the code under test).
+func c17QuietGrowth(a, b c17Result) int64 {
+	above := func(x c17Result) int64 {
+		if x.PeakQuiet < x.Baseline {
+			return 0
+		}
+		return int64(x.PeakQuiet - x.Baseline)
+	}
+	return above(b) - above(a)
+}
+
 const c17Ceiling = 192 << 20
 const c17Deadline = 300 * time.Second
 
@@ -298,7 +312,7 @@ func runC17(r *Run) {
 		r.Sample(map[string]interface{}{"combo": name, "small": a, "large": b, "growth_bytes": growth, "err_small": fmt.Sprint(errA), "err_large": fmt.Sprint(errB)})
 		// the model's statement for the same documents: requests bounded by the cap, whatever N (checked by the Lean theorem);
 		// here: what the driver predicts for the maximal request on a small document of the same shape
-		if ok && int64(b.PeakQuiet)-int64(a.PeakQuiet) > c17QuietSlack {
+		if ok && c17QuietGrowth(a, b) > c17QuietSlack {
 			r.Violate("C17 memory-grows-with-entries phase=before-parsing "+name, fmt.Sprintf("outside of the parsing phase (download, PEM detection, first pass, swap) the heap peaked at %d MiB for N=%d and %d MiB for N=%d: something holds the downloaded CRL in memory",
 				a.PeakQuiet>>20, small, b.PeakQuiet>>20, large), map[string]interface{}{"small": a, "large": b})
 		}
@@ -326,7 +340,7 @@ func runC17(r *Run) {
 			growth = g
 		}
 		r.Sample(map[string]interface{}{"combo": "der without 0x0a, file", "small": a, "large": b, "growth_bytes": growth, "err_small": fmt.Sprint(errA), "err_large": fmt.Sprint(errB)})
-		if ok && int64(b.PeakQuiet)-int64(a.PeakQuiet) > c17QuietSlack {
+		if ok && c17QuietGrowth(a, b) > c17QuietSlack {
 			r.Violate("C17 memory-grows-with-entries phase=before-parsing der-without-0x0a", fmt.Sprintf("outside of the parsing phase the heap peaked at %d MiB for N=%d and %d MiB for N=%d: something holds the CRL file in memory",
 				a.PeakQuiet>>20, a.N, b.PeakQuiet>>20, b.N), map[string]interface{}{"small": a, "large": b})
 		}
